@@ -122,14 +122,18 @@ def run(ctx, verdict):
     pipe(ctx, verdict, [dict(goroutines=8 if ctx.quick else 32, rounds=600 if ctx.quick else 4000)])
     ctx.assumptions += ["data races are observed by Go's race detector (the sensor); a report counts only when a WRITING access "
                         "has a go-geom frame; the harness's own deliberate race (control run) proves the sensor is alive",
-                        "purity is judged on bitwise digests of every argument (flat coordinates, ends, byte slices, strings, "
-                        "shared coordinates, Bounds, GeoJSON Feature / FeatureCollection / Geometry / CRS values, "
-                        "TreeSet and intersection Result) and of the exported package-level variables before and after "
+                        "purity is judged on bitwise digests of every argument (geometries and Bounds: every field, exported or not - "
+                        "flat coordinates, ends, layout, anything cached; byte slices, strings, shared coordinates; GeoJSON Feature / "
+                        "FeatureCollection / Geometry / CRS values, TreeSet and intersection Result: what their public API shows, "
+                        "exported fields and accessor results) and of the exported package-level variables before and after "
                         "each sequential call; under concurrency one final snapshot per argument (every argument must have one)",
                         "malformed / truncated encodings are handed to every decoder: the recorded result is the error class "
                         "(dynamic type), texts are left open; a panic of a call is a recorded result too (C17 does not judge it)",
-                        "one *wkt.Encoder value is shared by all goroutines (the struct holds only its option, no per-call state); it is "
-                        "judged by the race sensor and by result equality, its own fields are not part of the snapshots",
+                        "no encoder OBJECT is shared between goroutines (every call makes its own *wkt.Encoder / igc.Encoder): the "
+                        "statement promises concurrent calls on the same GEOMETRIES, an encoder value may own a scratch buffer",
+                        "results that are JSON documents are compared as JSON values (decoded and re-marshalled with sorted keys): "
+                        "the member order of an object is not part of the result; error results and panics are compared by their "
+                        "dynamic type only, after a failed decode only the error class is recorded (not what the receiver holds)",
                         "concurrent pass: half free mix of (operation, argument) pairs, half one phase per operation (all goroutines "
                         "in the same operation at once), so that rarely taken paths (decoder error paths) meet each other",
                         "interleavings are those the Go scheduler produced in this run (8 / 32 goroutines); the TLA+ design model "
